@@ -345,12 +345,15 @@ def grpcLineOf (l : Bytes) : Option (Option GFields) :=
   | 123 :: r =>
     match pObj pvGTop r with
     | .ok kvs rest =>
-      if !(skipJws rest).isEmpty then some none     -- "there are bytes left after unmarshal"
-      else (grpcFieldsOf kvs).map some
+      match skipJws rest with
+      | [] => (grpcFieldsOf kvs).map some
+      -- "there are bytes left after unmarshal" - but jsoniter takes a NUL byte for the end of its input (thorough, seed 2):
+      -- only a printable byte after the object is certainly refused
+      | b :: _ => if 33 ≤ b && b ≤ 126 then some none else none
     | .trunc => some none
     | .unk => none
   | 110 :: _ => none                                 -- `null` leaves the struct as it is
-  | _ => some none                                   -- "expect { or n"
+  | b :: _ => if 33 ≤ b && b ≤ 126 then some none else none   -- "expect { or n" (a printable byte; anything else: the library decides)
 
 def renderGObj (o : GObj) : String :=
   let asc (b : Bytes) : String := String.ofList (b.map fun c => Char.ofNat c.toNat)
